@@ -13,8 +13,8 @@ import (
 
 // C18: module paths resolve as documented, consistently across features.
 
-var c18Candidates = []string{"x.lua", "m/x.lua", "n/x.lua", "m/init.lua", "m.lua", "x.so", "x/q/x.lua"}
-var c18Modules = []string{"x", "m.x", "m/x", "n.x", "m", "m.init", "q"}
+var c18Candidates = []string{"x.lua", "m/x.lua", "n/x.lua", "m/init.lua", "m.lua", "x.so", "x/q/x.lua", "io/x.lua"}
+var c18Modules = []string{"x", "m.x", "m/x", "n.x", "m", "m.init", "q", "io.x"}
 var c18Forms = []string{`require "%s"`, `require("%s")`, `dofile("%s.lua")`}
 var c18Seps = []string{".", "/"}
 var c18ReqFiles = []string{"main.lua", "m/main.lua"}
